@@ -1,133 +1,112 @@
 import TantivyModel.Proofs.Fragments
 /-!
-# Repair proposal for the two snippet findings (NOT part of the C19 check, not imported by Props)
+# The second half of the snippet repair (NOT part of the C19 check, not imported by Props)
 
-The C19 model mirrors the code that exists. This file models the two-line repair proposed in the
-C19 report and proves that with it the full statement holds for **every** token stream satisfying
-the contract (no monotonicity of end offsets, no bound on token length needed):
+The first half of the repair proposed in the C19 report — `try_add_token` keeps the running
+maximum of the end offsets — is part of the checked model (`Frag.add` with `stopMode ≠ 0`,
+theorem `C19_highlights_inside`). The second half changes visible behaviour (a query term longer
+than `max_num_chars` yields an empty snippet instead of an over-long one) and is a maintainer
+decision; the over-long fragment stays a recorded finding. This file keeps the argument for it:
 
 ```
-fn try_add_token(..)   { self.stop_offset = self.stop_offset.max(token.offset_to); .. }
 fn search_fragments(..) { .. fragment = FragmentCandidate::new(next.offset_from);
                              if next.offset_to - next.offset_from > max_num_chars { continue; } .. }
 ```
+
+With both halves, for **every** token stream satisfying the contract (no monotonicity of end
+offsets, no bound on token length): no underflow, every fragment within `max_num_chars` bytes,
+every highlight inside its fragment.
 -/
 namespace TantivyModel.Snip.Repair
 open TantivyModel.Tok TantivyModel.Snip
 
-def addF (f : Frag) (t : STok) : Frag :=
-  match t.score with
-  | some sc => { f with stop := max f.stop t.to, score := f.score + sc, hl := f.hl ++ [(t.from_, t.to)] }
-  | none => { f with stop := max f.stop t.to }
-
-def searchAuxF (M : Nat) : Frag → List STok → Option (List Frag)
+/-- `search_fragments` with the skip of over-long tokens, over the checked `Frag.add` -/
+def searchAuxSkip (mode M : Nat) : Frag → List STok → Option (List Frag)
   | f, [] => some (emit f)
   | f, t :: ts =>
     if t.to < f.start then none
     else if t.to - f.start > M then
-      (if t.to - t.from_ > M then searchAuxF M (Frag.new t.from_) ts
-       else searchAuxF M (addF (Frag.new t.from_) t) ts).map (emit f ++ ·)
-    else searchAuxF M (addF f t) ts
+      (if t.to - t.from_ > M then searchAuxSkip mode M (Frag.new t.from_) ts
+       else searchAuxSkip mode M ((Frag.new t.from_).add mode t) ts).map (emit f ++ ·)
+    else searchAuxSkip mode M (f.add mode t) ts
 
 /-- invariant: the `FI` of the check + highlights inside + length within the limit -/
 def Good (M : Nat) (s : Text) (f : Frag) : Prop :=
   FI s f ∧ (∀ h ∈ f.hl, h.2 ≤ f.stop) ∧ f.stop - f.start ≤ M
 
-theorem good_addF (M : Nat) (s : Text) (f : Frag) (t : STok) (hg : Good M s f)
-    (ht : t.from_ ≤ t.to ∧ t.to ≤ byteLen s ∧ IsBoundary s t.from_ ∧ IsBoundary s t.to)
-    (hs : f.start ≤ t.from_) (hfit : t.to - f.start ≤ M) : Good M s (addF f t) := by
-  obtain ⟨⟨f1, f2, f3, f4, f5⟩, g1, g2⟩ := hg
-  obtain ⟨t1, t2, t3, t4⟩ := ht
-  have hstop : (addF f t).stop = max f.stop t.to := by unfold addF; cases t.score <;> rfl
-  have hstart : (addF f t).start = f.start := by unfold addF; cases t.score <;> rfl
-  have hhl : ∀ h ∈ (addF f t).hl, h ∈ f.hl ∨ h = (t.from_, t.to) := by
-    intro h hh; unfold addF at hh
-    cases hsc : t.score with
-    | none => rw [hsc] at hh; exact Or.inl hh
-    | some sc => rw [hsc] at hh; simpa using hh
-  have hb : IsBoundary s (max f.stop t.to) := by
-    by_cases hc : f.stop ≤ t.to
-    · rw [Nat.max_eq_right hc]; exact t4
-    · rw [Nat.max_eq_left (by omega)]; exact f4
-  refine ⟨⟨?_, ?_, ?_, ?_, ?_⟩, ?_, ?_⟩
-  · rw [hstart, hstop]; omega
-  · rw [hstop]; omega
-  · rw [hstart]; exact f3
-  · rw [hstop]; exact hb
-  · intro h hh
-    rw [hstart]
-    rcases hhl h hh with hh | hh
-    · exact f5 h hh
-    · subst hh; exact ⟨hs, t1, t2, t3, t4⟩
-  · intro h hh
-    rw [hstop]
-    rcases hhl h hh with hh | hh
-    · have := g1 h hh; omega
-    · subst hh; simp only; omega
-  · rw [hstart, hstop]; omega
+theorem good_add {mode : Nat} (hm : mode ≠ 0) (M : Nat) (s : Text) (f : Frag) (t : STok)
+    (ts : List STok) (hg : Good M s f) (h1 : P1 s f (t :: ts)) (hfit : t.to - f.start ≤ M) :
+    Good M s (f.add mode t) := by
+  obtain ⟨_, g1, g2⟩ := hg
+  have hp := P1_add mode s f t ts h1
+  refine ⟨hp.1, (P7_step hm s f t ts g1 hp).2, ?_⟩
+  rw [add_start, add_stop, stopAfter_pos hm]
+  omega
 
 theorem good_new (M : Nat) (s : Text) (o : Nat) (ho : IsBoundary s o) : Good M s (Frag.new o) :=
   ⟨⟨Nat.le_refl _, isBoundary_le ho, ho, ho, by simp [Frag.new]⟩, by simp [Frag.new], by simp [Frag.new]⟩
 
-theorem searchAuxF_good (M : Nat) (s : Text) : ∀ (ts : List STok) (f : Frag),
-    SContract s ts → Good M s f → (∀ t ∈ ts, f.start ≤ t.from_) →
-    ∃ frags, searchAuxF M f ts = some frags ∧ ∀ g ∈ frags, Good M s g := by
+theorem searchAuxSkip_good {mode : Nat} (hm : mode ≠ 0) (M : Nat) (s : Text) :
+    ∀ (ts : List STok) (f : Frag), P1 s f ts → Good M s f →
+    ∃ frags, searchAuxSkip mode M f ts = some frags ∧ ∀ g ∈ frags, Good M s g := by
   intro ts
   induction ts with
   | nil =>
-    intro f _ hg _
+    intro f _ hg
     refine ⟨emit f, rfl, ?_⟩
     intro g hgm; unfold emit at hgm
     split at hgm
     · simp only [List.mem_singleton] at hgm; subst hgm; exact hg
     · simp at hgm
   | cons t ts ih =>
-    intro f hc hg hs
+    intro f h1 hg
+    have hc := h1.2.1
     have ht := hc.inb t List.mem_cons_self
-    have hst := hs t List.mem_cons_self
     have hmono := (List.pairwise_cons.mp hc.mono).1
-    simp only [searchAuxF]
-    rw [if_neg (by omega)]
+    simp only [searchAuxSkip]
+    rw [if_neg (P1_safe s f t ts h1)]
     have hemit : ∀ g ∈ emit f, Good M s g := by
       intro g hgm; unfold emit at hgm
       split at hgm
       · simp only [List.mem_singleton] at hgm; subst hgm; exact hg
       · simp at hgm
+    have hnewP1 : P1 s (Frag.new t.from_) (t :: ts) :=
+      ⟨(good_new M s _ ht.2.2.1).1, hc, fun x hx => by
+        simp only [Frag.new]
+        rcases List.mem_cons.mp hx with e | e
+        · subst e; exact Nat.le_refl _
+        · exact hmono x e⟩
     split
     · split
-      · obtain ⟨frags, e, h⟩ := ih (Frag.new t.from_) hc.tail (good_new M s _ ht.2.2.1)
-          (fun x hx => by simp only [Frag.new]; exact hmono x hx)
+      · have hp : P1 s (Frag.new t.from_) ts :=
+          ⟨hnewP1.1, hc.tail, fun x hx => hnewP1.2.2 x (List.mem_cons_of_mem _ hx)⟩
+        obtain ⟨frags, e, h⟩ := ih (Frag.new t.from_) hp (good_new M s _ ht.2.2.1)
         refine ⟨emit f ++ frags, by rw [e]; rfl, ?_⟩
         intro g hgm; rw [List.mem_append] at hgm
         rcases hgm with hgm | hgm
         · exact hemit g hgm
         · exact h g hgm
-      · rename_i hlong
-        have hgood := good_addF M s (Frag.new t.from_) t (good_new M s _ ht.2.2.1) ht
-          (by simp [Frag.new]) (by simp only [Frag.new]; omega)
-        have hstart : (addF (Frag.new t.from_) t).start = t.from_ := by
-          unfold addF; cases t.score <;> rfl
-        obtain ⟨frags, e, h⟩ := ih _ hc.tail hgood (fun x hx => by rw [hstart]; exact hmono x hx)
+      · have hgood := good_add hm M s (Frag.new t.from_) t ts (good_new M s _ ht.2.2.1) hnewP1
+          (by simp only [Frag.new]; omega)
+        obtain ⟨frags, e, h⟩ := ih _ (P1_add mode s _ t ts hnewP1) hgood
         refine ⟨emit f ++ frags, by rw [e]; rfl, ?_⟩
         intro g hgm; rw [List.mem_append] at hgm
         rcases hgm with hgm | hgm
         · exact hemit g hgm
         · exact h g hgm
-    · rename_i hfit
-      have hgood := good_addF M s f t hg ht hst (by omega)
-      have hstart : (addF f t).start = f.start := by unfold addF; cases t.score <;> rfl
-      exact ih _ hc.tail hgood (fun x hx => by rw [hstart]; exact hs x (List.mem_cons_of_mem _ hx))
+    · exact ih _ (P1_add mode s f t ts h1) (good_add hm M s f t ts hg h1 (by omega))
 
-/-- with the repair, for every token stream satisfying the contract: no underflow, every
-fragment within `max_num_chars` bytes, every highlight inside its fragment -/
-theorem repaired_search_good (s : Text) (M : Nat) (ts : List STok) (hc : SContract s ts) :
-    ∃ frags, searchAuxF M (Frag.new 0) ts = some frags ∧
+/-- with both halves of the repair, for every token stream satisfying the contract: no
+underflow, every fragment within `max_num_chars` bytes, every highlight inside its fragment -/
+theorem C19_fragment_length_and_inside_with_skip {mode : Nat} (hm : mode ≠ 0) (s : Text) (M : Nat)
+    (ts : List STok) (hc : SContract s ts) :
+    ∃ frags, searchAuxSkip mode M (Frag.new 0) ts = some frags ∧
       ∀ g ∈ frags, FI s g ∧ (∀ h ∈ g.hl, h.2 ≤ g.stop) ∧ g.stop - g.start ≤ M :=
-  searchAuxF_good M s ts (Frag.new 0) hc (good_new M s 0 (isBoundary_zero s)) (fun _ _ => Nat.zero_le _)
+  searchAuxSkip_good hm M s ts (Frag.new 0) (P1_init s ts hc) (good_new M s 0 (isBoundary_zero s))
 
-/-- the repaired code no longer has the two counterexamples of the check -/
-example : searchAuxF 3 (Frag.new 0) [⟨0, 10, some 8⟩, ⟨11, 14, none⟩] = some [] := by decide
-example : searchAuxF 2 (Frag.new 0)
+/-- the skip removes the S7 counterexample: `abcdefghij klm`, term `abcdefghij`, limit 3 -/
+example : searchAuxSkip 1 3 (Frag.new 0) [⟨0, 10, some 8⟩, ⟨11, 14, none⟩] = some [] := by decide
+example : searchAuxSkip 1 2 (Frag.new 0)
     [⟨0, 1, some 1⟩, ⟨0, 2, some 1⟩, ⟨0, 3, some 1⟩, ⟨1, 2, some 1⟩, ⟨1, 3, some 1⟩, ⟨1, 4, none⟩,
      ⟨2, 3, none⟩, ⟨2, 4, none⟩, ⟨3, 4, none⟩]
     = some [⟨2, 0, 2, [(0, 1), (0, 2)]⟩, ⟨1, 0, 2, [(1, 2)]⟩, ⟨1, 1, 3, [(1, 3)]⟩] := by decide
